@@ -162,5 +162,6 @@ def check(tier):
             ck.add_mutant(name, m, "delay", "harness.steps", "delay_step", dict(cases=[(2, 2, 2, 0, 2, 0), (2, 2, 2, 1, 2, 1)], facets=FACETS))
         else:
             ck.add_mutant(name, m, which, "harness.C10", "sampler_job", dict(cases=[(which,)]))
+    ck.validate = ['delay_ssa', 'delay_volume_ssa', 'rng']
     ck.run()
     return ck.finish(replay=REPLAY)
